@@ -17,6 +17,11 @@ from .report import AnalysisError
 MAXSET = 64
 
 
+class Multi(frozenset):
+    """Returned by a transfer function that has several possible results (e.g. the
+    summary of a helper with more than one exit)."""
+
+
 def _apply(node, vals, transfer):
     """Apply transfer over all sub-nodes of an expression/simple statement."""
     if node is None:
@@ -26,7 +31,14 @@ def _apply(node, vals, transfer):
     nodes.sort(key=lambda n: (getattr(n, 'lineno', 0), getattr(n, 'col_offset', 0)))
     out = set(vals)
     for n in nodes:
-        out = {transfer(n, v) for v in out}
+        nxt = set()
+        for v in out:
+            r = transfer(n, v)
+            if isinstance(r, Multi):
+                nxt.update(r)
+            else:
+                nxt.add(r)
+        out = nxt
     return out
 
 
@@ -125,8 +137,9 @@ def run(stmts, init, transfer, seen=None):
                 outs[k] |= r.get(k, set())
         elif isinstance(st, ast.Return):
             v = _apply(st.value, cur, transfer)
-            v = {transfer(st, x) for x in v}
-            outs['return'] |= v
+            for x in v:
+                r = transfer(st, x)
+                outs['return'] |= (set(r) if isinstance(r, Multi) else {r})
             cur = set()
         elif isinstance(st, ast.Raise):
             outs['raise'] |= _apply(st.exc, cur, transfer)
